@@ -47,16 +47,45 @@ func c03Lagrange(r *Report) {
 	// bound B = the literal in checkLagrangeInput (`id > B`)
 	tp := w.PkgBy["pkg/tss"]
 	var B int64 = -1
+	boundOnElement := true
 	if tp != nil {
 		if fd := funcDecl(tp, "checkLagrangeInput"); fd != nil {
 			ast.Inspect(fd, func(n ast.Node) bool {
 				be, ok := n.(*ast.BinaryExpr)
-				if !ok || be.Op.String() != ">" {
+				if !ok {
 					return true
 				}
-				if tv, ok := tp.TypesInfo.Types[be.Y]; ok && tv.Value != nil {
+				// `id > B` or, mirrored, `B < id`
+				var lit ast.Expr
+				switch be.Op.String() {
+				case ">":
+					lit = be.Y
+				case "<":
+					lit = be.X
+				default:
+					return true
+				}
+				if tv, ok := tp.TypesInfo.Types[lit]; ok && tv.Value != nil {
 					if b := constBig(tv.Value); b != nil {
 						B = b.Int64()
+						// the compared value must be the ELEMENT of the member list being ranged over, not the requesting
+						// member's own id (seed C10-7: `mid > 20` sends mixed committees into the table path)
+						other := be.X
+						if lit == be.X {
+							other = be.Y
+						}
+						boundOnElement = false
+						if id, ok := other.(*ast.Ident); ok {
+							obj := tp.TypesInfo.Uses[id]
+							ast.Inspect(fd, func(m ast.Node) bool {
+								if rs, ok := m.(*ast.RangeStmt); ok {
+									if v, ok := rs.Value.(*ast.Ident); ok && tp.TypesInfo.Defs[v] == obj && obj != nil {
+										boundOnElement = true
+									}
+								}
+								return true
+							})
+						}
 					}
 				}
 				return true
@@ -66,6 +95,11 @@ func c03Lagrange(r *Report) {
 	if B < 2 {
 		r.Unres("lagrange|bound", d, "cannot find the `id > B` literal in checkLagrangeInput")
 		return
+	}
+	if !boundOnElement {
+		r.Bad("lagrange|bound-on-every-id", "checkLagrangeInput compares EVERY committee id with the table bound", w.Pos(funcDecl(tp, "checkLagrangeInput").Pos()), "the bound is not compared with the element of the ranged member list: a committee mixing ids on both sides of the bound takes the table path and indexes out of range")
+	} else {
+		r.OK("lagrange|bound-on-every-id", "checkLagrangeInput compares EVERY committee id with the table bound", w.Pos(funcDecl(tp, "checkLagrangeInput").Pos()), "range element compared")
 	}
 	r.OK("lagrange|bound", "checkLagrangeInput routes ids <= B to the table path", w.Pos(funcDecl(tp, "checkLagrangeInput").Pos()), fmt.Sprintf("B = %d", B))
 	var maxIdx int64
